@@ -414,6 +414,7 @@ class Merge(Expr):
                     right_index,
                     self.suffixes,
                     self.indicator,
+                    _broadcast_side=self.broadcast_side,
                 )
 
         if (shuffle_left_on or shuffle_right_on) and (
@@ -682,6 +683,7 @@ class BroadcastJoin(Merge, PartitionsFiltered):
         "suffixes",
         "indicator",
         "_partitions",
+        "_broadcast_side",
     ]
     _defaults = {
         "how": "inner",
@@ -692,7 +694,17 @@ class BroadcastJoin(Merge, PartitionsFiltered):
         "suffixes": ("_x", "_y"),
         "indicator": False,
         "_partitions": None,
+        "_broadcast_side": None,
     }
+
+    @functools.cached_property
+    def broadcast_side(self):
+        # The side chosen (and prepared) by ``Merge._lower``. Comparing the
+        # partition counts again would give the other side when the npartitions
+        # hint shrinks the large input below the small one
+        if self.operand("_broadcast_side") is not None:
+            return self.operand("_broadcast_side")
+        return super().broadcast_side
 
     def _divisions(self):
         if self.broadcast_side == "left":
